@@ -1344,8 +1344,13 @@ func (n *RegexNode) Format(buf *bytes.Buffer, indent string, onNewLine bool) {
 		onNewLine = true
 	}
 	writeIndent(buf, indent, onNewLine)
+	literal := n.Literal
+	if literal == "" && n.Regex != nil {
+		// The node was not created by the parser (JSON, vars): escape the pattern like a literal.
+		literal = strings.Replace(n.Regex.String(), "/", "\\/", -1)
+	}
 	buf.WriteByte('/')
-	buf.WriteString(n.Literal)
+	buf.WriteString(literal)
 	buf.WriteByte('/')
 }
 
